@@ -1332,7 +1332,7 @@ def svc(ir, instr, a):
     return e, []
 
 
-def und(ir, instr, a, b):
+def und(ir, instr, *args):
     # XXX TODO implement
     e = []
     return e, []
